@@ -245,3 +245,64 @@ class ArgfindGroup(Kernel):
 
 
 KERNELS = [ArgfindGroup()]
+
+
+class ExprToAxis(Kernel):
+    id = "C15.P.expr_to_axis"
+    prop = "C15"
+    file = "einx/_src/adapter/decomposednamedtensor_from_classical.py"
+    module = "einx._src.adapter.decomposednamedtensor_from_classical"
+    qual = "_expr_to_axis"
+    describe = ("_expr_to_axis(expr) = the tuple of positions of the bracketed children of expr, strictly increasing and complete (this is the axis= argument handed to reductions, "
+                "shape-preserving operations and adapted numpy-like reduce functions)")
+
+    def setup(self, eng, bound=None):
+        n = self.n = z3.Int("n")
+        ex = self.ex = z3.Array("expr", I, Obj)
+        marked = uf("in_brackets", Obj, B)
+        self.isM = lambda t: marked(ex[t])  # noqa
+        eng.contracts["stage3.is_in_brackets"] = SContract(lambda e, p, av, kw: SBool(marked(av[0].t)), "stage3.is_in_brackets (deterministic predicate on a node)")
+        eng.local_types = {"idxs": ("list", "int")}
+
+        def inv(e, p, it):
+            idxs = e.as_seq(p.lookup("idxs"), p)
+            t, u, j = fresh("t"), fresh("u"), fresh("j")
+            A = lambda q: z3.Select(idxs.arr, q)  # noqa
+            return z3.And(idxs.n >= 0, idxs.n <= it,
+                          z3.ForAll([t], z3.Implies(z3.And(0 <= t, t < idxs.n), z3.And(0 <= A(t), A(t) < it, self.isM(A(t))))),
+                          z3.ForAll([t, u], z3.Implies(z3.And(0 <= t, t < u, u < idxs.n), A(t) < A(u))),
+                          z3.ForAll([j], z3.Implies(z3.And(0 <= j, j < it, self.isM(j)), z3.Exists([t], z3.And(0 <= t, t < idxs.n, A(t) == j)))))
+
+        eng.invariants[0] = inv
+        return {"expr": SSeq(ex, n, "obj", "list"), "stage3": SObj(z3.Const("stage3", Obj))}, [n >= 0], {}
+
+    def post(self, eng, out, p):
+        if not isinstance(out, Return):
+            eng.oblige("post:returns", p, z3.BoolVal(False), "post")
+            return
+        r = eng.as_seq(out.v, p)
+        n = self.n
+        t, u, j = fresh("t"), fresh("u"), fresh("j")
+        A = lambda q: z3.Select(r.arr, q)  # noqa
+        eng.oblige("post:result is a tuple", p, z3.BoolVal(getattr(out.v, "pykind", "") == "tuple"), "post")
+        eng.oblige("post:every entry is the position of a bracketed child", p, z3.ForAll([t], z3.Implies(z3.And(0 <= t, t < r.n), z3.And(0 <= A(t), A(t) < n, self.isM(A(t))))), "post")
+        eng.oblige("post:entries are strictly increasing", p, z3.ForAll([t, u], z3.Implies(z3.And(0 <= t, t < u, u < r.n), A(t) < A(u))), "post")
+        eng.oblige("post:every bracketed position occurs", p, z3.ForAll([j], z3.Implies(z3.And(0 <= j, j < n, self.isM(j)), z3.Exists([t], z3.And(0 <= t, t < r.n, A(t) == j)))), "post")
+
+    def twin(self, tier):
+        import itertools
+        import einx._src.adapter.decomposednamedtensor_from_classical as D
+        import einx._src.namedtensor.stage3 as stage3
+        n, fails = 0, []
+        for r in range(0, 6):
+            for pat in itertools.product([0, 1], repeat=r):
+                n += 1
+                expr = stage3.List.create([stage3.Brackets(stage3.Axis(f"x{i}", 2)) if b else stage3.Axis(f"x{i}", 2) for i, b in enumerate(pat)])
+                got = D._expr_to_axis(expr)
+                exp = tuple(i for i, b in enumerate(pat) if b)
+                if got != exp:
+                    fails.append({"detail": f"_expr_to_axis(brackets {pat}) = {got}, expected {exp}"})
+        return n, fails[:3]
+
+
+KERNELS_C15 = [ExprToAxis()]
